@@ -153,7 +153,7 @@ int main(int argc, char **argv) {
       std::vector<std::vector<int>> next;
       for (auto &h : level)
         for (int op = 0; op < NOPS; op++) {
-          if (d == 4 && (op < 9 && op % 2)) continue; // depth 4: every second library operation, all command-line ones
+          // thorough (depth 4): the full alphabet at every level
           auto g = h; g.push_back(op); next.push_back(g);
           Case c;
           std::string s;
